@@ -77,6 +77,7 @@ type drv struct {
 	provider *ntske.Provider
 	srvIP    net.IP
 	dispIP   net.IP // address of the stand-alone dispatcher (StartSCIONDispatcher)
+	hwIP     net.IP // address of the listeners started with a network interface (zone "lo"): hardware timestamping is asked for, no transmit timestamp ever arrives
 	socks    []*net.UDPConn
 	seq      uint32
 	lost     bool // a sentinel went unanswered: finish the history in flight quickly, then stop driving
@@ -126,6 +127,14 @@ func newDrv() *drv {
 	// own address; it registers the listener metrics a second time, so on its own registry
 	prometheus.DefaultRegisterer = prometheus.NewRegistry()
 	server.StartSCIONDispatcher(ctx, log, &net.UDPAddr{IP: d.dispIP, Port: scionPort})
+	// a second pair of listeners configured with a network interface (the zone of the local
+	// address): EnableTimestamping asks for hardware stamps, which the loopback device never
+	// delivers, so every reply goes out without a transmit timestamp coming back
+	d.hwIP = ownAddr(59)
+	prometheus.DefaultRegisterer = prometheus.NewRegistry()
+	server.StartIPServer(ctx, log, &net.UDPAddr{IP: d.hwIP, Port: ipPort, Zone: "lo"}, 0, d.provider)
+	prometheus.DefaultRegisterer = prometheus.NewRegistry()
+	server.StartSCIONServer(ctx, log, "" /* daemon */, &net.UDPAddr{IP: d.hwIP, Port: scionPort, Zone: "lo"}, 0, d.provider)
 	for i := 0; i < nSocks; i++ {
 		a := &net.UDPAddr{IP: d.srvIP, Port: 0}
 		switch {
@@ -697,13 +706,17 @@ func (d *drv) afterLoss(n *int, s step) bool {
 	return *n <= maxAfterLoss && s.k != kParallel && s.k != kBurst
 }
 
-func (d *drv) runIP(tags string, steps []step, r *lib.Rng) {
+func (d *drv) runIP(tags string, steps []step, r *lib.Rng) { d.runIPTo("ip", d.srvIP, tags, steps, r) }
+
+// runIPTo drives an IP listener: kind "ip" the ordinary one, "ip.hwts" the one that never gets
+// transmit timestamps.
+func (d *drv) runIPTo(kind string, ip net.IP, tags string, steps []step, r *lib.Rng) {
 	if d.lost || d.tooManyRetries() {
 		return
 	}
 	args := stepsString(steps)
-	emitCur("ip", tags, args)
-	dst := &net.UDPAddr{IP: d.srvIP, Port: ipPort}
+	emitCur(kind, tags, args)
+	dst := &net.UDPAddr{IP: ip, Port: ipPort}
 	firstReply := make([][]byte, len(steps))
 	var outs []string
 	after := 0
@@ -747,7 +760,7 @@ func (d *drv) runIP(tags string, steps []step, r *lib.Rng) {
 		}
 		outs = append(outs, lib.L(lib.I(int64(s.sender)), lib.B(payload), ntsok, obsList(reps), lib.B(sentinel), obsList(sreps)))
 	}
-	emitCase("ip", tags, args, lib.V("0", lib.L(outs...)))
+	emitCase(kind, tags, args, lib.V("0", lib.L(outs...)))
 }
 
 // ---- SCION ----
@@ -1136,8 +1149,12 @@ func (d *drv) scionTarget(s step, sentinel []byte) (dst *net.UDPAddr, cp, lp int
 		sh.dstType, sh.dstRaw = 0, []byte(la.IP.To4())
 		dst, cp, lp, seqOf = &net.UDPAddr{IP: d.dispIP, Port: endhostPort}, endhostPort, endhostPort, scionRelaySeq
 	} else {
+		ip := d.srvIP
+		if s.hdr.via == 2 { // the listener that never gets transmit timestamps
+			ip = d.hwIP
+		}
 		sh.underlay = s.hdr.underlay
-		dst, cp, lp, seqOf = &net.UDPAddr{IP: d.srvIP, Port: int(s.hdr.underlay)}, int(s.hdr.underlay), scionPort, scionSeq
+		dst, cp, lp, seqOf = &net.UDPAddr{IP: ip, Port: int(s.hdr.underlay)}, int(s.hdr.underlay), scionPort, scionSeq
 	}
 	spkt, err := buildSCION(sh, sentinel)
 	if err != nil {
@@ -1229,6 +1246,20 @@ func (d *drv) runSCION(tags string, steps []step, r *lib.Rng) {
 		if s.k == kRaw {
 			// a datagram that is no SCION/UDP packet at all (garbage, SCMP), then the sentinel from
 			// the same socket: the goroutine that got the datagram must still be serving
+			if s.hdr.srcIA != 0 {
+				// a raw step that comes with a full header: first a SCION/UDP packet with that header for
+				// the server port that the listener decodes and drops (a server-mode NTP packet), then,
+				// as the very next datagram of the socket, the raw one
+				hp := *s.hdr
+				hp.udpDst, hp.fwd, hp.ext, hp.spao, hp.ulen = scionPort, 0, 0, 0, 0
+				dropped := make([]byte, ntp.PacketLen)
+				dropped[0], dropped[1] = 0x24, 1
+				if pre, err := buildSCION(&hp, dropped); err == nil {
+					d.socks[s.sender].WriteToUDP(pre, dst)
+				} else {
+					d.skip("cannot build SCION packet", err)
+				}
+			}
 			reps, sreps := d.exchange(s.sender, dst, s.data, spkt, seqOf)
 			outs = append(outs, lib.L(lib.B(s.data), lib.I(s.a), lib.I(int64(cp)), lib.I(int64(lp)), lib.I(int64(s.sender)),
 				scionObsList(reps), sh.modelString(), lib.B(sentinel), reversed(sh.pathType, sh.pathRaw), scionObsList(sreps)))
